@@ -77,6 +77,19 @@ def gen_op(rng, keys, max_value=None, ngram=True, big=0.12, zero=0.05, max_batch
     if r < 0.50:
         return ["add1", hx(pick())]
     if r < 0.62:
+        r2 = rng.random()
+        if r2 < 0.03:
+            # long lists of typical batch sizes (batched kernels cut remainders somewhere)
+            n = int([64, 65, 128, 256, 500, 512, 1000, 1023, 1024, 1025, 2048][int(rng.integers(0, 11))])
+            return ["ulist", [hx(pick()) for _ in range(n)]]
+        if r2 < 0.05:
+            # mixed key lengths whose total equals n * len(first): first of length L, then pairs (L - d, L + d)
+            L, d = int(rng.integers(3, 12)), int(rng.integers(1, 3))
+            ks = [rand_key(rng, L, L, hot=0.2)]
+            for _ in range(int(rng.integers(32, 40))):
+                ks.append(rand_key(rng, L - d, L - d, hot=0.2))
+                ks.append(rand_key(rng, L + d, L + d, hot=0.2))
+            return ["ulist", [hx(k) for k in ks]]
         return ["ulist", [hx(pick()) for _ in range(int(rng.integers(0, max_batch + 1)))]]
     if r < 0.78:
         n = int(rng.integers(0, max_batch + 1))
